@@ -2132,14 +2132,16 @@ def spin_chains(cx):
                     SS = sum(chain_embed({q: sm[d], r: sm[d]}, L, D) for d in "XYZ")
                     R += math.cos(theta) * SS + math.sin(theta) * (SS @ SS)
                 m = qtb.MPO_ham_bilinear_biquadratic(L, theta, S=S, cyclic=cyclic, compress=compress)
-                return close(m.to_dense(), R, "MPO_ham_bilinear_biquadratic", tol=1e-8)
+                # compress=True truncates with the default cutoff 1e-10 (relative squared weight): promised to ~1e-5 only
+                return close(m.to_dense(), R, "MPO_ham_bilinear_biquadratic", tol=3e-5 if compress else 1e-8)
 
             cx.check("MPO_ham_bilinear_biquadratic == sum cos(theta) S.S + sin(theta) (S.S)^2", p, t_bb)
 
             def t_bb2(L=L, S=S, cyclic=cyclic, theta=theta, compress=compress, D=D):
                 m = qtb.MPO_ham_bilinear_biquadratic(L, theta, S=S, cyclic=cyclic, compress=compress)
                 lh = qtb.ham_1d_bilinear_biquadratic(L, theta, S=S, cyclic=cyclic)
-                return close(local_ham_sum(lh, L, D), m.to_dense(), "ham_1d_bilinear_biquadratic vs MPO", tol=1e-8)
+                return close(local_ham_sum(lh, L, D), m.to_dense(), "ham_1d_bilinear_biquadratic vs MPO",
+                             tol=3e-5 if compress else 1e-8)
 
             if not (cyclic and L < 3):
                 cx.check("ham_1d_bilinear_biquadratic (sum of embedded pair terms) == MPO_ham_bilinear_biquadratic", p, t_bb2)
